@@ -77,6 +77,12 @@ func (d *Demand) modeFor(killed map[string]int) func(a *Atom) int {
 				return ModeNone
 			}
 			rem := k
+			if rem&KillNilResp != 0 {
+				rem &^= KillNilResp
+				if idxClass(a.A.Args[1], nil) != "primary" {
+					rem |= KillNil
+				}
+			}
 			switch idxClass(a.A.Args[1], nil) {
 			case "own":
 				rem &^= KillNNSender
